@@ -63,3 +63,29 @@ Proof. exact P_C08.C08_peak_scales. Qed.
 Example C08_nonvacuous : let a := [1; -2; 3; 0.5] in
   a <> [] /\ (S 2 < length a)%nat /\ nth 3 (fst (velo_disp true (1/100) a)) 0 = 0.0175.
 Proof. cbn. repeat split; [discriminate | lia | numR; lra]. Qed.
+
+(** *** The model is the source (translator tie).
+    gen/Gen_quadrature.v is re-translated from /repo's eqsig/displacements.py and eqsig/im.py at the start of every run
+    of this check (translator/py2coq_numpy.py: Python [ast], whitelist grammar of NumPy vector expressions, fail-closed).
+    PROVED, for every [NumOps] instance (the Q run of the correspondence and the R theorems above alike) and for ALL
+    inputs: the translation of calc_velo_and_disp_from_accel_arr -- both branches: `trap is False` (np.zeros(n+1),
+    velocity[1:] = a*dt, two in-place cumsums, both series [:-1]) and the two cumulative_trapezoid calls -- IS
+    [velo_disp]; the translation of its alias velocity_and_displacement_from_acceleration IS [velo_disp]; the translation
+    of calc_peak IS [calc_peak]; the default of the `trap` parameter is True.  A changed source statement changes the
+    generated term and breaks one of these four obligations (or is rejected by the translator), so every theorem of
+    this file is about the code that is in /repo, not only about a hand model that agrees with it on the sampled cases.
+    NOT proved (still only decided by the correspondence): that NumPy/SciPy's cumsum, cumulative_trapezoid, abs, slicing
+    and in-place semantics are the list primitives of lib/NpList.v (the translator's reading of each whitelisted call),
+    binary64 rounding, and the object layer (AccSignal.velocity/.displacement/.pga/.pgv/.pgd caching and dispatch). *)
+From EQ Require Import gen.Gen_quadrature proofs.P_gen_quadrature.
+
+Theorem C08_model_is_source : forall (T : Type) (ops : NumOps T) (trap : bool) (dt : T) (a : list T),
+  gen_velo_disp trap dt a = velo_disp trap dt a.
+Proof. exact (@P_gen_quadrature.gen_velo_disp_eq). Qed.
+Theorem C08_alias_is_source : forall (T : Type) (ops : NumOps T) (trap : bool) (dt : T) (a : list T),
+  gen_velo_disp_alias trap dt a = velo_disp trap dt a.
+Proof. exact (@P_gen_quadrature.gen_velo_disp_alias_eq). Qed.
+Theorem C08_peak_is_source : forall (T : Type) (ops : NumOps T) (m : list T), gen_calc_peak m = calc_peak m.
+Proof. exact (@P_gen_quadrature.gen_calc_peak_eq). Qed.
+Theorem C08_default_trap_is_source : gen_velo_disp_default_trap = true /\ gen_velo_disp_alias_default_trap = true.
+Proof. exact P_gen_quadrature.gen_default_trap. Qed.
